@@ -9,6 +9,11 @@ from exactly_lib.util.interval.w_inversion import intervals, combinations
 from exactly_lib.impls.types.condition import comparators
 
 M = Module('C13')
+# thorough tier: the contracts are installed as run-time monitors while these suites of the repository run
+M.conformance_suites = ['exactly_lib_test.impls.types.interval.z_package_suite',
+                        'exactly_lib_test.impls.types.line_matcher.z_package_suite',
+                        'exactly_lib_test.impls.types.string_transformer.filter.z_package_suite',
+                        'exactly_lib_test.util.interval.z_package_suite']
 
 P_INTERVALS = 'exactly_lib.util.interval.w_inversion.intervals'
 P_COMB = 'exactly_lib.util.interval.w_inversion.combinations'
@@ -136,6 +141,7 @@ def implements_interval_interface(x):
 M.contract('contracts.C13_filter:implements_interval_interface',
            params=dict(x=CONCRETE_INTERVAL),
            ensures={'every concrete interval class behaves as the interface IntervalI assumes': lambda result: result},
+           cover=False,     # the `return False` exits of the harness are unreachable exactly when the claim holds
            raises_only=())
 
 M.contract(P_INTERVALS + ':point', params=dict(x=Int), ghosts=dict(n=Int), returns=ANY_INTERVAL,
@@ -633,7 +639,10 @@ M.contract('exactly_lib.impls.types.line_matcher.model_construction:adapt_to_lin
                'adapted': lambda result: wf(result) and (result.is_empty or (
                        (result.lower is None or result.lower > FIRST_LINE_NUMBER)
                        and (result.upper is None or result.upper >= FIRST_LINE_NUMBER))),
-           }, raises_only=())
+           },
+           # dead code for well-formed intervals (lower <= upper survives max(., 1)): reachability cover exempted
+           cover=('return intervals.Empty()',),
+           raises_only=())
 
 
 def is_adapted(x):
